@@ -541,7 +541,7 @@ def run(ctx):
 
             ctx.note_case((key,), hi - lo >= 2)
             # the grouping of files into work groups depends on the thread count (with --threads=1 several objects share a group)
-            rthreads = [[], ["--threads=1"], ["--threads=2"], ["--threads=8"]][(lo + hi + len(ys)) % 4]
+            rthreads = [["--threads=1"], [], ["--threads=1"], ["--threads=2"]][(lo + hi + len(ys)) % 4]
             rc, _, e1 = lu.link("wild", rthreads + ["-r", "-o", part] + ys, cwd=d)
             if rc != 0:
                 violation("partial", "wild -r fails on objects that link directly", e1)
